@@ -53,3 +53,77 @@ package processorqueue
 //@   prop C06
 //@   modifies now
 //@   ensures[verdict] result <==> r.result == requestSuccess
+
+// ---------------------------------------------------------------- the watch list
+//@ ghost func watchOK(w *RequestWatcher) bool = w != nil && w.requests != nil && w.requestsExpireAt != nil && forall(k, string, in(k, w.requests) ==> w.requests[k] != nil && allocated(w.requests[k]))
+
+//@ func (*RequestWatcher).AddRequest
+//@   prop C06
+//@   mode seq
+//@   requires watchOK(watcher) && req != nil && allocated(req)
+//@   modifies mapof(watcher.requests), mapof(watcher.requestsExpireAt), opof(watcher.requestCount), now
+//@   ensures[registered] in(req.apiStream.GetID(), watcher.requests) && watcher.requests[req.apiStream.GetID()] == req && watcher.requestsExpireAt[req.apiStream.GetID()] == req.expireAt
+//@   ensures[counted]    atomicval(watcher.requestCount) == old(atomicval(watcher.requestCount)) + 1
+//@   ensures[inv]        watchOK(watcher)
+
+//@ func (*RequestWatcher).RemoveFromWatchList
+//@   prop C06
+//@   mode seq
+//@   requires watchOK(watcher)
+//@   modifies mapof(watcher.requests), mapof(watcher.requestsExpireAt), opof(watcher.requestCount), now
+//@   ensures[removed] !in(requestID, watcher.requests) && !in(requestID, watcher.requestsExpireAt) && atomicval(watcher.requestCount) == old(atomicval(watcher.requestCount)) - 1
+//@   ensures[inv]     watchOK(watcher)
+
+// shutdown: every watched request has its verdict afterwards, nobody is signalled twice (SetProcessedTimeout is idempotent)
+//@ func (*RequestWatcher).StopAll
+//@   prop C06
+//@   mode seq
+//@   requires watchOK(watcher)
+//@   modifies allof(Request.state), allof(Request.result), allof(Request.waitGroup), opall(Request.waitGroup), now
+//@   loop 1 invariant[released] forall(k, string, seen1[k] ==> watcher.requests[k].state == requestProcessed && wgcount(watcher.requests[k].waitGroup) == 0)
+//@   ensures[all-released] forall(k, string, in(k, watcher.requests) ==> watcher.requests[k].state == requestProcessed && wgcount(watcher.requests[k].waitGroup) == 0)
+
+// ---------------------------------------------------------------- the processor
+//@ ghost var gLastAllowed bool                  // answer of the latest quota.Allowed
+//@ ghost var gEnqStamp gmap[string]int64        // arrival stamp the shared queue orders an id by
+//@ ghost field Request.gAdmitted bool           // the attached quota admitted this request
+
+//@ iface ResourceManagementI.GetQuota
+//@   modifies now
+//@   ensures result1 == nil ==> result0 != nil
+//@ iface QuotaResourceI.Inc
+//@   modifies now
+//@ iface QuotaResourceI.Dec
+//@   modifies now
+//@ iface QuotaResourceI.Allowed
+//@   modifies gLastAllowed, now
+//@   ensures gLastAllowed == result0
+// the shared queue orders equal priorities by the stamp it takes when Enqueue is called (proved for the in-memory queue below)
+//@ iface SharedQueueI.Enqueue
+//@   params item, priority
+//@   modifies gEnqStamp, now
+//@   ensures gEnqStamp[item] == now() && forall(o, string, o != item ==> gEnqStamp[o] == old(gEnqStamp[o]))
+//@ iface SharedQueueI.Size
+//@   modifies now
+//@ iface SharedQueueI.DequeueIfValueRelevant
+//@   modifies now
+
+//@ func (*queueProcessor).processQueueItem
+//@   prop C06
+//@   mode seq
+//@   requires request != nil && p.metaData != nil
+//@   modifies request.gAdmitted, gLastAllowed, gEnqStamp, now
+//@   on return when result do request.gAdmitted = true
+//@   ensures[allowed-only-if-quota-admits] result ==> gLastAllowed
+//@   ensures[not-in-drain-mode] result ==> !old(p.inDrainMode)
+//@   ensures[admitted-flag] result ==> request.gAdmitted
+//@   ensures[arrival-order-kept] !result ==> gEnqStamp[request.apiStream.GetID()] == request.timestamp
+
+//@ func (*queueProcessor).enqueueIfSlotAvailable
+//@   prop C06
+//@   mode seq
+//@   requires p.requestsWatcher != nil && watchOK(p.requestsWatcher) && req != nil && allocated(req)
+//@   modifies mapof(p.requestsWatcher.requests), mapof(p.requestsWatcher.requestsExpireAt), opof(p.requestsWatcher.requestCount), gEnqStamp, now
+//@   ensures[size] result ==> old(atomicval(p.requestsWatcher.requestCount)) < p.maxQueueSize
+//@   ensures[full-rejected] old(atomicval(p.requestsWatcher.requestCount)) >= p.maxQueueSize ==> !result && atomicval(p.requestsWatcher.requestCount) == old(atomicval(p.requestsWatcher.requestCount))
+//@   ensures[registered] result ==> in(req.apiStream.GetID(), p.requestsWatcher.requests) && p.requestsWatcher.requests[req.apiStream.GetID()] == req
